@@ -2173,7 +2173,8 @@ package analysis
 // obtained by resolving p's $ref in the document (never the unresolved placeholder)
 //@ fun entryFor(s *Spec, p spec.Parameter, k string, v spec.Parameter) bool = (p.Ref.String() == "" && v == p && k == mapKeyFromParam(p)) || (p.Ref.String() != "" && k == mapKeyFromParam(v) && ptrGets(*p.Ref.GetPointer(), box(s.spec), box(v)))
 // effParam(s, p): the parameter that p stands for: p itself, or the shared parameter its $ref resolves to
-//@ fun resolvesOK(s *Spec, p spec.Parameter) bool = p.Ref.String() == "" || (ptrOK(*p.Ref.GetPointer(), box(s.spec)) && ptrObj(*p.Ref.GetPointer(), box(s.spec)) is spec.Parameter)
+// a $ref resolves to a parameter when the pointer can be followed, yields a parameter object, and that object is a parameter proper (not yet another $ref)
+//@ fun resolvesOK(s *Spec, p spec.Parameter) bool = p.Ref.String() == "" || (ptrOK(*p.Ref.GetPointer(), box(s.spec)) && ptrObj(*p.Ref.GetPointer(), box(s.spec)) is spec.Parameter && ptrObj(*p.Ref.GetPointer(), box(s.spec)).(spec.Parameter).Ref.String() == "")
 //@ fun effParam(s *Spec, p spec.Parameter) spec.Parameter = if p.Ref.String() == "" then p else ptrObj(*p.Ref.GetPointer(), box(s.spec)).(spec.Parameter)
 //@ fun allResolve(s *Spec, ps []spec.Parameter) bool = forall i in 0..len(ps) :: resolvesOK(s, ps[i])
 //@ fun allInline(ps []spec.Parameter) bool = forall i in 0..len(ps) :: ps[i].Ref.String() == ""
@@ -2185,12 +2186,15 @@ package analysis
 //@   ensures allResolve(s, parameters) ==> cbCalled == old(cbCalled)
 //@   ensures callmeOnError != nil && !allResolve(s, parameters) ==> cbCalled
 //@   ensures allResolve(s, parameters) ==> result
+// no unresolved placeholder: what is entered is a parameter proper, never a $ref (property text)
+//@   ensures forall k in dom(res) :: (old(k in dom(res)) && res[k] == old(res[k])) || res[k].Ref.String() == ""
 //@   ensures forall k in dom(res) :: (old(k in dom(res)) && res[k] == old(res[k])) || (exists i in 0..len(parameters) :: entryFor(s, parameters[i], k, res[k]))
 //@   ensures forall k string :: old(k in dom(res)) ==> k in dom(res)
 //@   ensures allResolve(s, parameters) ==> forall i in 0..len(parameters) :: mapKeyFromParam(effParam(s, parameters[i])) in dom(res) && (exists j in i..len(parameters) :: res[mapKeyFromParam(effParam(s, parameters[i]))] == effParam(s, parameters[j]) && mapKeyFromParam(effParam(s, parameters[j])) == mapKeyFromParam(effParam(s, parameters[i])))
 //@   ensures allResolve(s, parameters) ==> forall k in dom(res) :: old(k in dom(res)) && res[k] == old(res[k]) || (exists i in 0..len(parameters) :: k == mapKeyFromParam(effParam(s, parameters[i])))
 //@   loop 1: modifies map res, ghost cbCalled
 //@   loop 1: invariant old(callmeOnError) != nil ==> callmeOnError == old(callmeOnError)
+//@   loop 1: invariant forall k in dom(res) :: (old(k in dom(res)) && res[k] == old(res[k])) || res[k].Ref.String() == ""
 //@   loop 1: invariant (forall j in 0..idx :: resolvesOK(s, parameters[j])) ==> cbCalled == old(cbCalled)
 //@   loop 1: invariant old(callmeOnError) != nil && !(forall j in 0..idx :: resolvesOK(s, parameters[j])) ==> cbCalled
 //@   loop 1: invariant forall k in dom(res) :: (old(k in dom(res)) && res[k] == old(res[k])) || (exists i in 0..idx :: entryFor(s, parameters[i], k, res[k]))
